@@ -23,4 +23,10 @@ CLAIMED = {
              'Encode/Decode/MaxEncodedLen API and byte views (8-bit exhaustive). serde form not exercised.',
         design_ref='7/C10', note=COMMON_NOTE + ' parity-scale-codec derive semantics (fields in order, PhantomData encodes to nothing) are assumed and cross-checked by the correspondence.',
         technique='Lean 4 proof over executable model + translator-checked struct description + differential correspondence'),
+    'C06': dict(
+        text='Theorem SfxProps.C06.holds (full strength, all 507 layouts incl. 0 and 1 integer bits): each overflowing_{ceil,floor,round,round_ties_to_even} equals '
+             '(exact rounding mod 2^n, exact flag); checked/saturating/wrapping/plain forms follow; round_to_zero = truncation without any check firing; int+frac split. '
+             'Mask constants INT_MASK/FRAC_MASK/INT_LSB/FRAC_MSB proved from their bit-operation definitions. Correspondence: all 23 public methods, 8-bit exhaustive on '
+             'all 18 layouts, both profiles.',
+        design_ref='7/C06', note=COMMON_NOTE, technique='Lean 4 proof over executable model + differential correspondence'),
 }
